@@ -703,6 +703,7 @@ package logql
 //@   loop 0 modifies p.pos, labels[*], matchers[*]
 //@   loop 0 invariant p.pos >= 0 && p.pos >= old(p.pos) && fresh(labels) && fresh(matchers)
 //@   loop 0 body_ensures[matcher-iff-operator-follows] m_called == (matchOp(head(tokType(p, p.pos+1))) != 0) && head(peekTok(p)) == lexer.Ident
+//@   loop 0 exit_ensures[matcher-iff-operator-follows] m_called || l_called ==> m_called == (matchOp(head(tokType(p, p.pos+1))) != 0) && head(peekTok(p)) == lexer.Ident
 //@   loop 0 body_ensures[label-or-matcher-appended-in-order] (m_called ==> len(matchers) == head(len(matchers)) + 1 && len(labels) == head(len(labels)) && same(matchers[len(matchers)-1], m_r0)) &&
 //@       (!m_called ==> l_called && len(labels) == head(len(labels)) + 1 && len(matchers) == head(len(matchers)) && labels[len(labels)-1] == l_r0)
 
